@@ -50,8 +50,11 @@ and stmt () =
 and stmts () = let k = int_ () in
   let l = rep k stmt in List.fold_right (fun s acc -> SCons (s, acc)) l SNil
 
+let embed () = let q = idents () in let t = ident () in { equal = q; etyp = t }
 let decl () =
   match next () with
+  | "st" -> let n = ident () in let k = int_ () in let es = rep k embed in let fs = idents () in let ft = idents () in
+            DStruct (n, es, fs, ft)
   | "im" -> let nm = idents () in let pp = num () in let pn = num () in DImport (nm, pp, pn)
   | "va" -> let ns = idents () in let t = idents () in let v = exprs () in DVar (ns, t, v)
   | "co" -> let ns = idents () in let v = exprs () in DConst (ns, v)
